@@ -109,7 +109,12 @@ def native_supersede(ctx):
         'only-deleted-keyspace': ['ks b', 'insert b 6b31 41', 'insert b 6b32 42', 'delete_ks b'],
         'tombstones-only': ['ks a', 'remove a 6b31', 'remove a 6b32'],
         'ingested': ['ks a', 'ingest a 6b31:31,6b32:32', 'ingest a 6b33:33'],
+        'journaled-then-ingested': ['ks a', 'insert a 6b31 31', 'ingest a 6b32:32,6b33:33'],
+        'journaled-then-ingested-two-keyspaces': ['ks a', 'ks b', 'insert b 6b31 41', 'insert a 6b31 31', 'ingest a 6b32:32', 'ingest b 6b33:43'],
         'cleared': ['ks a', 'insert a 6b31 31', 'clear a'],
+        'clear-after-unjournaled-seqnos': ['ks a', 'insert a 6b31 31', 'ingest a 6b32:32', 'ingest a 6b33:33', 'rotate a', 'worker_drain', 'clear a'],
+        # (the sealed journal is kept on disk by b's unflushed write; a journal that was evicted takes its seqnos with it)
+        'clear-in-sealed-journal': ['rotation_threshold 0', 'ks a', 'ks b', 'ks c', 'insert b 6b31 41', 'insert a 6b31 31', 'ingest a 6b32:32', 'clear a', 'insert c 6b31 51', 'rotate c', 'worker_drain'],
         'sealed-journal-deleted-keyspace': ['rotation_threshold 0', 'ks a', 'ks b', 'insert a 6b31 31', 'insert b 6b31 41', 'insert b 6b32 42', 'insert b 6b33 43', 'rotate a', 'worker_drain', 'delete_ks b'],
         'two-keyspaces-different-marks': ['ks a', 'ks b', 'insert a 6b31 31', 'rotate a', 'worker_drain', 'insert b 6b31 41', 'insert b 6b32 42', 'insert b 6b33 43'],
     }
@@ -118,8 +123,12 @@ def native_supersede(ctx):
         # bound = the highest seqno any tree (keyspaces, meta keyspace) ever reported before the close: every journal record was
         # in a memtable when it was written, every table item came from a memtable or an ingestion.  (The counter itself is
         # not the bound: version changes of lsm-tree consume numbers that appear in no journal or table.)
-        ops2 = []
+        # ... plus the seqno of every journaled single operation (insert/remove/clear draw exactly the counter value read just before them):
+        # a clear leaves its seqno in the journal only
+        ops2 = []; n_pre = 0
         for o in ops:
+            if o.startswith(('insert ', 'remove ', 'clear ')):
+                ops2.append('seqno'); n_pre += 1
             ops2 += [o, 'maxseq']
         L = ['dir $DIR/db', 'open workers=0'] + ops2 + ['seqno', 'close', 'open workers=0', 'seqno', 'ks a', 'insert a 6b31 6e6577', 'remove a 6b32', 'snapshot s', 'snap_get s a 6b31',
                                                        'get a 6b31', 'get a 6b32', 'dump a', 'maxseq', 'close', 'open workers=0', 'seqno', 'ks a', 'get a 6b31', 'get a 6b32', 'close']
@@ -129,9 +138,10 @@ def native_supersede(ctx):
             return True, spath, f'{name}: crash ' + rs[-1][1][-200:]
         seq = [int(r.split('=')[1].split()[0]) for c, r in rs if c == 'seqno']
         vis = [int(r.split('visible=')[1]) for c, r in rs if c == 'seqno']
+        journaled = seq[:n_pre]; seq = seq[n_pre:]; vis = vis[n_pre:]
         mx = [int(r.split('=')[1]) if r.startswith('max=') else -1 for c, r in rs if c == 'maxseq']
         if len(seq) == 3 and mx:
-            bound1 = max(mx[:-1]); bound2 = max(mx)
+            bound1 = max(mx[:-1] + journaled); bound2 = max(mx + journaled)
             if seq[1] <= bound1:
                 return True, spath, f'history {name}: seqno {bound1} is present in a journal/table before the reopen, but after the reopen Database::seqno() is {seq[1]}: it will be handed out again'
             if seq[2] <= bound2:
